@@ -242,9 +242,6 @@ DtFails(e) ==
             \cup G("DateTime.RoundTrip.SameOffset", e.rt.obs.off = e.obs.off)
             \cup G("DateTime.RoundTrip.SamePrecision",
                    e.rt.obs.prec = e.obs.prec))
-    \cup (IF e.route = "copy" /\ e.haswant
-          THEN G("DateTime.Copy.SameValueKindOffsetPrecision", e.obs = e.want)
-          ELSE {})
 
 (* drift between the real constructor and the transcription (no verdict)   *)
 DtDrift(e) ==
@@ -257,6 +254,13 @@ DtDrift(e) ==
   \cup
   (IF e.haswant /\ e.route # "copy"
    THEN G("dt.ctor-value:" \o e.route, e.built = "ok" /\ e.obs = e.want)
+   ELSE {})
+  \cup
+  \* the copy constructor CIMDateTime(other) is outside the statement of C06
+  \* (it speaks of str(x) and CIMDateTime(str(x))): a copy that differs from
+  \* its source is reported as drift only (R-sound)
+  (IF e.route = "copy" /\ e.haswant
+   THEN G("dt.copy-differs-from-source", e.obs = e.want)
    ELSE {})
   \cup
   (IF e.built = "ok" /\ Expressible(e.obs)
